@@ -46,7 +46,12 @@ def remap_curie_prefixes(converter: Converter, remapping: Mapping[str, str]) -> 
     :returns: An upgraded converter
     """
     ordering = _order_curie_remapping(converter, remapping)
-    intersection = set(remapping).intersection(remapping.values())
+    # prefixes that are handed over to another record by a pair whose key is known
+    handed_over = {
+        new_prefix
+        for old, new_prefix in remapping.items()
+        if converter.synonym_to_prefix.get(old) is not None
+    }
     records = {r.prefix: r for r in converter.records}
 
     modified_records = []
@@ -70,14 +75,12 @@ def remap_curie_prefixes(converter: Converter, remapping: Mapping[str, str]) -> 
                 new_prefix,
                 new_record,
             )
-        elif old in intersection:
-            record.prefix_synonyms = sorted(
-                set(record.prefix_synonyms).difference({old, new_prefix})
-            )
-            record.prefix = new_prefix
         else:
+            # the previous canonical prefix is kept as a synonym; ``old`` is only
+            # given up if a transitive remapping actually hands it to another record
+            dropped = {new_prefix, old} if old in handed_over else {new_prefix}
             record.prefix_synonyms = sorted(
-                set(record.prefix_synonyms).union({record.prefix}).difference({new_prefix})
+                set(record.prefix_synonyms).union({record.prefix}).difference(dropped)
             )
             record.prefix = new_prefix
         modified_records.append(record)
